@@ -91,6 +91,14 @@ def cases(rng, tier):
         c = {"t": "int", "i": w(j) if which in ("col", "both", "list") else j}
         out.append({"prop": rng.choice(["C02", "C03"]) if False else "C02",
                     "case": {"lens": lens, "idx": {"r": r, "c": c}, "dtype": "int64", "vseed": rng.randint(0, 999), "variant": rng.randint(0, 29)}})
+    # ragged operands whose shapes differ only in the NUMBER of rows (one empty row against several, none against one, one cell in
+    # all): refused under both widths
+    for _ in range(60 if tier == "quick" else 600):
+        lens, other = rng.choice([([0], [0, 0, 0]), ([0, 0], [0]), ([], [0]), ([0], []), ([], [1]), ([1], []), ([1], [1, 0]), ([0, 0, 0], [0, 0]),
+                                  ([2], [2, 0]), ([0, 1], [0, 1, 0]), ([1], [0, 1])])
+        out.append({"prop": "C04", "case": {"lens": list(lens), "kind": "ragged_bad", "side": rng.choice(["left", "right"]), "uf": rng.choice(["add", "multiply", "less", "maximum"]),
+                                            "dta": rng.choice(["int64", "float64", "bool"]), "dtb": rng.choice(["int64", "int8"]), "vseed": rng.randint(0, 999),
+                                            "derived": None, "vmode": "small", "other": list(other)}})
     out += [{"prop": VIEW, "case": c} for c in _mod(VIEW).cases(random.Random(rng.randint(0, 10 ** 9)), tier)]
     _cases = out
     return out
